@@ -43,130 +43,226 @@ Qed.
 Lemma bind_ok {A B} (m : M A) (f : A -> M B) s a s' : m s = (Ok a, s') -> bind m f s = f a s'.
 Proof. intros H. unfold bind. rewrite H. reflexivity. Qed.
 
-(* generic outcome predicate: not Panic, allocation bounded by [b] *)
-Definition safe {A} (b : N) (s : N) (out : res A * N) : Prop :=
+(* generic outcome predicate: not Panic, allocation bounded by [b], and [P] on the value *)
+Definition safe {A} (P : A -> Prop) (b : N) (s : N) (out : res A * N) : Prop :=
   match out with
-  | (Ok _, s') => s' <= s + b
+  | (Ok a, s') => s' <= s + b /\ P a
   | (Err _, s') => s' <= s + b
   | (Panic, _) => False
   end.
+Definition anyv {A} : A -> Prop := fun _ => True.
 
-Lemma safe_fail {A} b s s1 e : s1 <= s + b -> @safe A b s (fail e s1).
+Lemma safe_fail {A} (P : A -> Prop) b s s1 e : s1 <= s + b -> safe P b s (fail e s1).
 Proof. cbn. lia. Qed.
-Lemma safe_ret {A} b s s1 (a : A) : s1 <= s + b -> safe b s (ret a s1).
+Lemma safe_err {A} (P : A -> Prop) b s s1 e : s1 <= s + b -> safe P b s (Err e, s1).
 Proof. cbn. lia. Qed.
+Lemma safe_ret {A} (P : A -> Prop) b s s1 (a : A) : s1 <= s + b -> P a -> safe P b s (ret a s1).
+Proof. cbn. tauto. Qed.
 
 (* a call to a sub-parser from state s1 inside a computation started at s *)
-Lemma safe_bind2 {A B} (m : M A) (f : A -> M B) b1 b s s1 :
-  safe b1 s1 (m s1) -> s1 + b1 <= s + b ->
-  (forall a s2, s2 <= s1 + b1 -> safe b s (f a s2)) ->
-  safe b s (bind m f s1).
+Lemma safe_bind2 {A B} (Q : A -> Prop) (P : B -> Prop) (m : M A) (f : A -> M B) b1 b s s1 :
+  safe Q b1 s1 (m s1) -> s1 + b1 <= s + b ->
+  (forall a s2, Q a -> s2 <= s1 + b1 -> safe P b s (f a s2)) ->
+  safe P b s (bind m f s1).
 Proof.
   intros Hm Hle Hf. unfold bind. destruct (m s1) as [[a|e|] s2] eqn:E; cbn in Hm.
-  - apply Hf. exact Hm.
+  - apply Hf; tauto.
   - cbn. lia.
   - contradiction.
 Qed.
 
-Lemma safe_bind {A B} (m : M A) (f : A -> M B) b1 b2 s :
-  safe b1 s (m s) -> (forall a s', s' <= s + b1 -> safe b2 s' (f a s')) ->
-  safe (b1 + b2) s (bind m f s).
+Lemma safe_rebase {A} (Q P : A -> Prop) b1 b s s1 (out : res A * N) :
+  safe Q b1 s1 out -> s1 + b1 <= s + b -> (forall a, Q a -> P a) -> safe P b s out.
 Proof.
-  intros Hm Hf. unfold bind. destruct (m s) as [[a|e|] s'] eqn:E; cbn in Hm.
-  - specialize (Hf a s' Hm). destruct (f a s') as [[x|x|] s2]; cbn in *; lia.
-  - cbn. lia.
-  - contradiction.
+  intros H Hle HQ. destruct out as [[a|e|] s2]; cbn in *; try lia; try tauto.
+  destruct H. split; [lia|auto].
 Qed.
-
-Lemma safe_weaken {A} b b' s (out : res A * N) : b <= b' -> safe b s out -> safe b' s out.
-Proof. intros H. destruct out as [[a|e|] s']; cbn; first [lia | tauto]. Qed.
-
-(* one step through a read that is in range *)
-Ltac rd_step H :=
-  match goal with
-  | |- safe _ _ (bind (rd16 ?d ?o) _ ?s) =>
-      let v := fresh "v" in destruct (rd16_ok d o s H) as [v ?E]; rewrite (bind_ok _ _ _ _ _ E); clear E
-  | |- safe _ _ (bind (rd32 ?d ?o) _ ?s) =>
-      let v := fresh "v" in destruct (rd32_ok d o s H) as [v ?E]; rewrite (bind_ok _ _ _ _ _ E); clear E
-  | |- safe _ _ (bind (rd64 ?d ?o) _ ?s) =>
-      let v := fresh "v" in destruct (rd64_ok d o s H) as [v ?E]; rewrite (bind_ok _ _ _ _ _ E); clear E
-  end.
 
 Ltac step :=
   lazymatch goal with
-  | |- safe _ _ ((if ?c then _ else _) _) => destruct c eqn:?
-  | |- safe _ _ (fail _ _) => apply safe_fail; qconsts; lia
-  | |- safe _ _ (ret _ _) => apply safe_ret; qconsts; lia
-  | |- safe _ _ (bind (alloc _) _ _) => rewrite bind_alloc
-  | |- safe _ _ (bind (rd16 ?d ?o) _ ?s) =>
+  | |- safe _ _ _ ((if ?c then _ else _) _) => destruct c eqn:?
+  | |- safe _ _ _ (fail _ _) => apply safe_fail; qconsts; lia
+  | |- safe _ _ _ (Err _, _) => apply safe_err; qconsts; lia
+  | |- safe anyv _ _ (ret _ _) => apply safe_ret; [qconsts; lia | exact I]
+  | |- safe _ _ _ (bind (alloc _) _ _) => rewrite bind_alloc
+  | |- safe _ _ _ (bind (rd16 ?d ?o) _ ?s) =>
       let v := fresh "v" in let E := fresh "E" in
       destruct (rd16_ok d o s) as [v E]; [qconsts; lia|]; rewrite (bind_ok _ _ _ _ _ E); clear E
-  | |- safe _ _ (bind (rd32 ?d ?o) _ ?s) =>
+  | |- safe _ _ _ (bind (rd32 ?d ?o) _ ?s) =>
       let v := fresh "v" in let E := fresh "E" in
       destruct (rd32_ok d o s) as [v E]; [qconsts; lia|]; rewrite (bind_ok _ _ _ _ _ E); clear E
-  | |- safe _ _ (bind (rd64 ?d ?o) _ ?s) =>
+  | |- safe _ _ _ (bind (rd64 ?d ?o) _ ?s) =>
       let v := fresh "v" in let E := fresh "E" in
       destruct (rd64_ok d o s) as [v E]; [qconsts; lia|]; rewrite (bind_ok _ _ _ _ _ E); clear E
-  | |- safe _ _ (bind (cp ?n ?d ?o) _ ?s) =>
+  | |- safe _ _ _ (bind (cp ?n ?d ?o) _ ?s) =>
       let v := fresh "v" in let E := fresh "E" in
       destruct (cp_ok n d o s) as [v E]; [qconsts; lia|]; rewrite (bind_ok _ _ _ _ _ E); clear E
-  | |- safe _ _ (bind (lift (slice ?a ?i ?j)) _ _) =>
+  | |- safe _ _ _ (bind (lift (slice ?a ?i ?j)) _ _) =>
       rewrite (slice_ok a i j) by (qconsts; lia); rewrite bind_lift_ok
-  | |- safe _ _ (bind (lift (slice_from ?a ?i)) _ _) =>
+  | |- safe _ _ _ (bind (lift (slice_from ?a ?i)) _ _) =>
       unfold slice_from; rewrite (slice_ok a i (glen a)) by (qconsts; lia); rewrite bind_lift_ok
-  | |- safe _ _ (bind (lift (Ok _)) _ _) => rewrite bind_lift_ok
+  | |- safe _ _ _ (bind (lift (Ok _)) _ _) => rewrite bind_lift_ok
+  | |- safe _ _ _ (bind (ret _) _ _) => rewrite bind_ret
+  | |- safe _ _ _ (bind (fail _) _ _) => rewrite bind_fail
+  | |- safe _ _ _ (bind (if ?c then _ else _) _ _) => destruct c eqn:?
+  | |- safe _ _ _ (bind (bind _ _) _ _) => rewrite bind_assoc
+  | |- _ => progress cbv zeta
   end.
 
-Ltac call L := eapply (safe_bind2 _ _ 0); [apply L | qconsts; lia | intros ? ? ?].
+Ltac call L := eapply (safe_bind2 anyv _ _ _ 0); [apply L | qconsts; lia | intros ? ? ? ?].
 
 (* ---------- leaf parsers: no allocation ---------- *)
-Lemma header_v3_safe data s : safe 0 s (header_v3 data s).
+Lemma header_v3_safe data s : safe anyv 0 s (header_v3 data s).
 Proof.
   unfold header_v3. step; [step|]. assert (glen data = 48) by (qconsts; lia).
   repeat step.
 Qed.
 
-Lemma header_v4_safe data s : safe 0 s (header_v4 data s).
+Lemma header_v4_safe data s : safe anyv 0 s (header_v4 data s).
 Proof.
   unfold header_v4. step; [step|]. assert (glen data = 48) by (qconsts; lia).
   repeat step.
 Qed.
 
-Lemma sgx_report_safe data s : safe 0 s (sgx_report data s).
+Lemma sgx_report_safe data s : safe anyv 0 s (sgx_report data s).
 Proof.
   unfold sgx_report. step; [step|]. assert (384 <= glen data) by (qconsts; lia).
   repeat step.
 Qed.
 
-Lemma td_attributes_safe data s : safe 0 s (td_attributes data s).
+Lemma td_attributes_safe data s : safe anyv 0 s (td_attributes data s).
 Proof.
   unfold td_attributes. step; [step|]. assert (glen data = 8) by lia.
   step. destruct (le64_ok (sl data 0 (glen data))) as [v Hv]; [rewrite glen_sl; lia|].
   rewrite Hv, bind_lift_ok. repeat step.
 Qed.
 
-Lemma td_report_safe data s : safe 0 s (td_report data s).
+Lemma td_report_safe data s : safe anyv 0 s (td_report data s).
 Proof.
   unfold td_report. step; [step|]. assert (584 <= glen data) by (qconsts; lia).
   do 5 step.
   call td_attributes_safe. repeat step.
 Qed.
 
-Lemma ppid_safe data s : safe 0 s (ppid data s).
+Lemma ppid_safe data s : safe anyv 0 s (ppid data s).
 Proof.
   unfold ppid. step; [step|]. assert (glen data = 404) by (qconsts; lia).
   repeat step.
 Qed.
 
-Lemma pck_chain_safe pem_ok data s : safe 0 s (pck_chain pem_ok data s).
+Lemma pck_chain_safe pem_ok data s : safe anyv 0 s (pck_chain pem_ok data s).
 Proof. unfold pck_chain. repeat step. Qed.
 
 (* ---------- QE report certification data: allocates the authentication data ---------- *)
-Lemma qe_report_safe pem_ok data s : safe (glen data) s (qe_report pem_ok data s).
+Lemma qe_report_safe pem_ok data s : safe anyv (glen data) s (qe_report pem_ok data s).
 Proof.
   unfold qe_report. step; [step|]. assert (384 <= glen data) by (qconsts; lia).
   step. call sgx_report_safe.
   repeat step.
-  - eapply (safe_bind2 _ _ 0); [apply ppid_safe | qconsts; lia | intros [p1 p2] ? ?]. step.
-  - eapply (safe_bind2 _ _ 0); [apply pck_chain_safe | qconsts; lia | intros ? ? ?]. step.
+  - eapply (safe_bind2 anyv _ _ _ 0); [apply ppid_safe | qconsts; lia | intros [p1 p2] ? ? ?]. step.
+  - call pck_chain_safe. step.
 Qed.
+
+(* ---------- ECDSA-P256 quote signature ---------- *)
+Lemma sig_ecdsa_safe pem_ok version data s : safe anyv (glen data) s (sig_ecdsa pem_ok version data s).
+Proof.
+  unfold sig_ecdsa. step; [step|]. assert (584 <= glen data) by (qconsts; lia).
+  repeat step.
+  - eapply safe_rebase; [apply qe_report_safe | rewrite glen_sl by lia; lia | auto].
+  - eapply safe_rebase; [apply qe_report_safe | rewrite glen_sl by lia; lia | auto].
+Qed.
+
+(* ---------- Quote.UnmarshalBinaryWithTrailing ---------- *)
+Definition quote_value_post (allowTrailing : bool) (data : bytes) (x : quote * N) : Prop :=
+  snd x <= glen data /\ (allowTrailing = false -> snd x = glen data).
+
+Lemma quote_tail_safe pem_ok allowTrailing data hdr rep offset s :
+  offset + 4 <= glen data ->
+  safe (quote_value_post allowTrailing data) (glen data) s
+    ((sigLen <- rd32 data offset ;;
+      let offset := offset + quoteSigSizeLen in
+      if glen data <? offset + sigLen then fail Q_TRAILING else
+      if negb allowTrailing && negb (glen data =? offset + sigLen) then fail Q_TRAILING else
+      if h_ak hdr =? AttestationKeyECDSA_P256 then
+        sd <- lift (slice data offset (offset + sigLen)) ;;
+        q <- sig_ecdsa pem_ok (h_version hdr) sd ;;
+        ret (mkQuote (h_version hdr) (h_tee hdr) (h_ak hdr) rep q, offset + sigLen)
+      else fail Q_AKTYPE) s).
+Proof.
+  intros Hoff. do 6 step; try step.
+  eapply (safe_bind2 anyv); [apply sig_ecdsa_safe | rewrite glen_sl by (qconsts; lia); qconsts; lia |].
+  intros q s2 _ Hs2. apply safe_ret; [rewrite glen_sl in Hs2 by (qconsts; lia); qconsts; lia|].
+  unfold quote_value_post. cbn [snd]. split; [qconsts; lia|].
+  intros ->. cbn [negb andb] in *. qconsts. lia.
+Qed.
+
+Lemma quote_unmarshal_safe pem_ok allowTrailing data s :
+  safe (quote_value_post allowTrailing data) (glen data) s (quote_unmarshal pem_ok allowTrailing data s).
+Proof.
+  unfold quote_unmarshal. step; [step|]. assert (436 <= glen data) by (qconsts; lia).
+  step. cbv zeta.
+  (* header *)
+  eapply (safe_bind2 anyv _ _ _ 0); [| lia |].
+  { repeat step.
+    - eapply safe_rebase; [apply header_v3_safe | lia | auto].
+    - eapply safe_rebase; [apply header_v4_safe | lia | auto]. }
+  intros hdr s1 _ Hs1. step; [step|].
+  (* report body *)
+  eapply (safe_bind2 (fun x : option report * N => snd x + 4 <= glen data) _ _ _ 0); [| lia |].
+  { step; [|step; [|]].
+    - step. call sgx_report_safe. apply safe_ret; [lia | cbn [snd]; qconsts; lia].
+    - step; [step|]. step. call td_report_safe. apply safe_ret; [lia | cbn [snd]; qconsts; lia].
+    - apply safe_ret; [lia | cbn [snd]; qconsts; lia]. }
+  intros [rep offset] s2 Hoff Hs2. cbn [snd] in Hoff.
+  eapply safe_rebase; [apply (quote_tail_safe pem_ok allowTrailing data hdr rep offset s2 Hoff) | | auto].
+  lia.
+Qed.
+
+(* ---------- exported statements ---------- *)
+Lemma decode_quote_total_l : forall pem_ok trailing b s,
+  fst (quote_unmarshal pem_ok trailing b s) <> Panic.
+Proof.
+  intros pem_ok trailing b s. pose proof (quote_unmarshal_safe pem_ok trailing b s) as H.
+  destruct (quote_unmarshal pem_ok trailing b s) as [[a|e|] s1]; cbn in *; try discriminate.
+  contradiction.
+Qed.
+
+
+Lemma decode_quote_bounded_l : forall pem_ok trailing b s,
+  snd (quote_unmarshal pem_ok trailing b s) <= s + glen b /\
+  (forall q n s', quote_unmarshal pem_ok trailing b s = (Ok (q, n), s') ->
+     n <= glen b /\ (trailing = false -> n = glen b)).
+Proof.
+  intros pem_ok trailing b s. pose proof (quote_unmarshal_safe pem_ok trailing b s) as H.
+  split.
+  - destruct (quote_unmarshal pem_ok trailing b s) as [[a|e|] s1]; cbn in *; first [lia | contradiction].
+  - intros q n s' E. rewrite E in H. cbn in H. unfold quote_value_post in H. cbn [snd] in H. tauto.
+Qed.
+
+Lemma decode_quote_parts_total_l : forall pem_ok version b s,
+  fst (header_v3 b s) <> Panic /\ fst (header_v4 b s) <> Panic /\
+  fst (sgx_report b s) <> Panic /\ fst (td_report b s) <> Panic /\
+  fst (ppid b s) <> Panic /\ fst (qe_report pem_ok b s) <> Panic /\
+  fst (sig_ecdsa pem_ok version b s) <> Panic.
+Proof.
+  intros pem_ok version b s.
+  pose proof (header_v3_safe b s) as H1. pose proof (header_v4_safe b s) as H2.
+  pose proof (sgx_report_safe b s) as H3. pose proof (td_report_safe b s) as H4.
+  pose proof (ppid_safe b s) as H5. pose proof (qe_report_safe pem_ok b s) as H6.
+  pose proof (sig_ecdsa_safe pem_ok version b s) as H7.
+  repeat split.
+  - destruct (header_v3 b s) as [[?|?|] ?]; cbn in *; try discriminate; contradiction.
+  - destruct (header_v4 b s) as [[?|?|] ?]; cbn in *; try discriminate; contradiction.
+  - destruct (sgx_report b s) as [[?|?|] ?]; cbn in *; try discriminate; contradiction.
+  - destruct (td_report b s) as [[?|?|] ?]; cbn in *; try discriminate; contradiction.
+  - destruct (ppid b s) as [[?|?|] ?]; cbn in *; try discriminate; contradiction.
+  - destruct (qe_report pem_ok b s) as [[?|?|] ?]; cbn in *; try discriminate; contradiction.
+  - destruct (sig_ecdsa pem_ok version b s) as [[?|?|] ?]; cbn in *; try discriminate; contradiction.
+Qed.
+
+(* a quote whose declared signature length exceeds the input is an error *)
+Example quote_huge_siglen_is_err :
+  fst (run (quote_unmarshal true false
+    ([3; 0; 2; 0; 0; 0; 0; 0; 0; 0; 0; 0] ++ QEVendorID_Intel ++ repeat 0 20 ++ repeat 0 384
+       ++ [255; 255; 255; 255]))) = Err Q_TRAILING.
+Proof. vm_compute. reflexivity. Qed.
